@@ -501,6 +501,34 @@ func init() {
 		}
 		return nil
 	}
+	// sort.Sort / sort.Stable over a sort.Interface: stable insertion sort through the value's own
+	// Len / Less / Swap methods
+	sortIface := func(c *Ctx, fr *frame, fn *ssa.Function, args []value, pos token.Pos) value {
+		ifc, ok := args[0].(iface)
+		if !ok || ifc.t == nil {
+			c.unsupported("sort.Sort on %T", args[0])
+		}
+		mLen, mLess, mSwap := c.eng.findMethod(ifc.t, "Len"), c.eng.findMethod(ifc.t, "Less"), c.eng.findMethod(ifc.t, "Swap")
+		if mLen == nil || mLess == nil || mSwap == nil {
+			c.unsupported("sort.Sort: methods not found")
+		}
+		n, ok := concreteInt(asTerm(c.callSSA(fr, pos, mLen, []value{ifc.v}, nil)))
+		if !ok {
+			c.unsupported("sort.Sort: symbolic length")
+		}
+		for i := int64(1); i < n; i++ {
+			for j := i; j > 0; j-- {
+				r := c.callSSA(fr, pos, mLess, []value{ifc.v, CI(j), CI(j - 1)}, nil)
+				if !c.decideBool(asTerm(r), pos) {
+					break
+				}
+				c.callSSA(fr, pos, mSwap, []value{ifc.v, CI(j), CI(j - 1)}, nil)
+			}
+		}
+		return nil
+	}
+	intrinsics["sort.Sort"] = sortIface
+	intrinsics["sort.Stable"] = sortIface
 	intrinsics["sort.Slice"] = sortSlice
 	intrinsics["sort.SliceStable"] = sortSlice
 	// concrete floating point library calls (floats are never symbolic in this engine)
